@@ -266,7 +266,7 @@ fn multisets(k: usize, len: usize) -> Vec<Vec<usize>> {
 /// Work units (helper, alphabet, keys, syms); every unit runs all 3^n assignments.
 pub fn units(thorough: bool) -> Vec<(String, String, usize, Vec<usize>)> {
     let mut v = vec![];
-    let nmax = if thorough { 6 } else { 4 };
+    let nmax = if thorough { 6 } else { 3 };
     for alpha in ["int", "float", "str", "bool"] {
         let k = alphabet(alpha).len();
         for len in 0..=nmax {
@@ -282,7 +282,7 @@ pub fn units(thorough: bool) -> Vec<(String, String, usize, Vec<usize>)> {
             }
         }
     }
-    let amax = if thorough { 6 } else { 4 };
+    let amax = if thorough { 6 } else { 3 };
     for alpha in ["int", "float", "str", "bool", "mixednum"] {
         let k = alphabet(alpha).len();
         for len in 0..=amax {
@@ -291,7 +291,7 @@ pub fn units(thorough: bool) -> Vec<(String, String, usize, Vec<usize>)> {
             }
         }
     }
-    let dmax = if thorough { 5 } else { 4 };
+    let dmax = if thorough { 5 } else { 3 };
     for alpha in ["prim", "collide"] {
         let k = alphabet(alpha).len();
         for len in 0..=dmax {
